@@ -53,6 +53,12 @@ def read_cfg(G):
             for g2, var in E.alts(r.variable):
                 alt = r.alternative
                 for g3, a in E.alts(alt):
+                    if a is None:
+                        # a rule without alternative object: kept visible (never equal to a real rule)
+                        lit = d.all_([gg, g2, g3])
+                        if lit != FALSE:
+                            out.append((lit, str(var), ('<None>',), ('NoneType',)))
+                        continue
                     syms = a.symbols
                     if isinstance(syms, (L.GList, L.U)):
                         cands = E.inst(syms)
